@@ -118,6 +118,11 @@ func Test3k3yImage(f afero.File) ([]byte, error) {
 	case errors.Is(err, nil):
 		// pass
 	case errors.Is(err, io.EOF):
+		// file is too short to carry the data... if it really ends there
+		if stat, statErr := f.Stat(); statErr != nil || sizeBytes(stat.Size()) >= _3k3yMaskedDataEnd {
+			return nil, fmt.Errorf("read 3k3y data: %w", io.ErrUnexpectedEOF)
+		}
+
 		return nil, ErrNot3k3y
 	default:
 		return nil, err
